@@ -262,11 +262,13 @@ def phases(ctx: Ctx):
     outer = repo.func(SSO, "perform_driver_state_updates")
     inner = repo.func(SSO, "perform_driver_state_updates._step_drivers")
     s0 = outer.params[0]
-    ok = False
-    for p in flow.paths(outer.node):
-        if p.kind == "return":
-            ok = flow.dump(p.value) == f"ft.reduce(_step_drivers, {s0}.get_vehicles(), {s0})"
-    ctx.check(ok, "D3", "ORD.driver-phase", "driver updates are folded over every vehicle of the state, starting from that state", outer, why_bad="fold shape changed", construct="perform_driver_state_updates:fold")
+    rets = [p for p in flow.paths(outer.node) if p.kind == "return"]
+    bad_p = [p for p in rets if flow.dump(p.value) != f"ft.reduce(_step_drivers, {s0}.get_vehicles(), {s0})"]
+    ctx.check(bool(rets) and not bad_p, "D3", "ORD.driver-phase", "on EVERY path the driver phase folds the update over every vehicle of the state, starting from that state", outer,
+              bad_p[0].end if bad_p else None,
+              why_bad=(f"path [{bad_p[0].cond_text()[:160]}] returns `{flow.dump(bad_p[0].value)[:80]}` without stepping the drivers: on those steps nobody goes on or off shift and no "
+                       f"shift event is filed, whatever the schedule says") if bad_p else "no return",
+              construct="perform_driver_state_updates:fold")
     acc, v = inner.params[:2]
     ok = False
     for p in flow.paths(inner.node):
